@@ -147,7 +147,7 @@ def run(ctx):
                 payload = b'\1' * k
                 msgs = core.lst(['CCS'] * k); norm = msgs
                 exp = 'bytes ' + core.hexs(bytes([t]) + ver.to_bytes(2, 'big') + len(payload).to_bytes(2, 'big') + payload)
-            l0 = rng.choice((0, len(payload), 65535))
+            l0 = rng.choice((0, min(len(payload), 65535), 65535))
             items.append(('ser_rec', '(Plain (Hdr %d %d %d) %s)' % (t, ver, l0, msgs), exp,
                           '(Plain (Hdr %d %d %d) %s)' % (t, ver, len(payload), norm) if norm and exp and exp.startswith('bytes') else None,
                           'tls_plaintext' if norm and exp and exp.startswith('bytes') else None, 'record/%d' % t))
